@@ -21,8 +21,8 @@ ID = "C11"
 DELTA = ST.DELTA
 
 TIERS = {
-    "quick": {"runs": 12000, "stat_jobs": 52, "stat_M": 20000, "selftest": 16, "budget_s": 240, "chunk": 150},
-    "thorough": {"runs": 160000, "stat_jobs": 208, "stat_M": 100000, "selftest": 64, "budget_s": 1500, "chunk": 400},
+    "quick": {"runs": 12000, "stat_jobs": 60, "stat_M": 20000, "selftest": 16, "budget_s": 240, "chunk": 150},
+    "thorough": {"runs": 160000, "stat_jobs": 240, "stat_M": 100000, "selftest": 64, "budget_s": 1500, "chunk": 400},
 }
 
 RULE = (
@@ -706,6 +706,8 @@ STAT_COMBOS = [
     ("single_pass", None, False, "ties"),  # heavily tied scores: every source score (not every distinct value) is drawn once on average
     ("replacement", None, False, "ties"),
     ("replacement", None, False, "easy_heavy"),  # a handful of scored samples next to many easy ones: the hard stratum's mean
+    ("proportion", None, False, "k1"),  # one score drawn from a class of 55-100: every score, the last one included, is that one equally often
+    ("replacement", "by_label", False, "big"),  # tens of thousands of scores in a class, explicit replacement: per-score means (streamed)
 ]
 
 
@@ -720,8 +722,17 @@ def stat_scenario(verif_seed, j, tier):
     variant = combo[3] if len(combo) > 3 else None
     sparse = variant == "sparse"
     small = (j // len(STAT_COMBOS)) % 4 == 3 and method in ("replacement", "single_pass") and variant is None
+    if variant == "big":
+        # described by size and seed (M.build_scores, "synth"); far fewer samples than elsewhere: each one is 40000 draws
+        spec = {"pos": [], "neg": [], "synth": {"n_pos": rnd.choice([rnd.randint(33000, 45000), rnd.randint(4096, 9000)]), "n_neg": rnd.randint(120, 200),
+                                                "seed": rnd.randrange(2 ** 31), "decimals": 6},
+                "dtype": "float64", "score_class": rnd.choice(["pos", "neg"]), "equal_class": rnd.choice(["pos", "neg"]), "nb_easy_pos": 0, "nb_easy_neg": 0}
+        return {"stat": True, "big": True, "np_seed": rnd.randrange(2**31), "object": spec,
+                "cfg": {"sampling_method": method, "stratified_sampling": strat, "smoothing": False}, "M": max(2000, TIERS[tier]["stat_M"] // 5)}
     if variant == "easy_heavy":
         npos, nneg = rnd.randint(4, 8), rnd.randint(40, 90)
+    elif variant == "k1":
+        npos, nneg = rnd.randint(55, 70), rnd.randint(95, 100)
     elif small:
         npos, nneg = rnd.randint(30, 90), rnd.randint(30, 90)
     elif sparse:
@@ -745,11 +756,58 @@ def stat_scenario(verif_seed, j, tier):
         spec["nb_easy_pos"], spec["nb_easy_neg"] = rnd.randint(30, 70), rnd.randint(0, 20)
     cfg = {"sampling_method": method, "stratified_sampling": strat, "smoothing": smoothing}
     if method == "proportion":
-        cfg["ratio"] = rnd.choice([0.02, 0.04, 0.06]) if sparse else rnd.choice([0.1, 0.25, 0.5, 0.8])
+        cfg["ratio"] = rnd.choice([0.005, 0.01, 0.02, 0.02, 0.04, 0.06]) if sparse else 0.01 if variant == "k1" else rnd.choice([0.1, 0.25, 0.5, 0.8])
     return {"stat": True, "np_seed": rnd.randrange(2**31), "object": spec, "cfg": cfg, "M": TIERS[tier]["stat_M"]}
 
 
+def execute_stat_big(scn, ctx):
+    """Per-score mean multiplicity for a very large class, streamed (sum and sum of squares instead of an M x n matrix)."""
+    seam = ctx.seam
+    seam.seed(scn["np_seed"])
+    seam.begin_op([])
+    src, _ = M.build_scores(scn["object"])
+    cfg = scn["cfg"]
+    config = M.build_config(cfg)
+    Mn = int(scn["M"])
+    R = 8.0
+    tags = {"method": cfg["sampling_method"], "strat": cfg.get("stratified_sampling"), "smoothing": False, "stat": True, "big": True}
+    up, mp_ = np.unique(np.asarray(src.pos), return_counts=True)
+    s1, s2 = np.zeros(len(up)), np.zeros(len(up))
+    viol = []
+    for i in range(Mn):
+        try:
+            s = src.bootstrap_sample(config)
+        except Exception as e:  # noqa: BLE001
+            info = seam.end_op()
+            return {"violations": [{"invariant": "C11.sample_raises", "tags": tags, "detail": f"bootstrap_sample raised {type(e).__name__}: {e} (large-class scenario, sample {i})"}],
+                    "trace": [["stat", tags, i, "raised"]], "stats": {"ops": i, "draws": info["draws"], "forced": 0, "faults": {}, "probes": {}},
+                    "signature": "stat-raised", "nontrivial": True, "states": []}
+        if not M.values_subset(s.pos[:: max(1, len(s.pos) // 64)], up):
+            viol.append({"invariant": "C11.membership", "tags": tags, "detail": f"sample {i} holds positives that are not in the source"})
+            break
+        c = np.minimum(np.bincount(np.minimum(np.searchsorted(up, s.pos), len(up) - 1), minlength=len(up))[: len(up)], R * mp_) / mp_
+        s1 += c
+        s2 += c * c
+    info = seam.end_op()
+    m = s1 / Mn
+    var = np.maximum(s2 - Mn * m * m, 0.0) / max(Mn - 1, 1)
+    tol = ST.eb_tolerance(var, R, Mn) + 1e-3
+    off = np.abs(m - 1.0) > tol
+    if not viol and off.any():
+        w = int(np.argmax(np.abs(m - 1.0) - tol))
+        viol.append({"invariant": "C11.unbiased_multiplicity", "tags": tags,
+                     "detail": f"pos value #{w} of {len(up)}: mean multiplicity {m[w]:.4f}, expected 1 +- {tol[w]:.4f} (M={Mn}); {int(off.sum())} values off"})
+    if not viol and (s1 == 0).any():
+        viol.append({"invariant": "C11.reachability", "tags": tags, "detail": f"pos value #{int(np.argmax(s1 == 0))} never drawn in {Mn} samples of {len(src.pos)} draws"})
+    trace = [["stat-big", tags, Mn, hashlib.sha1(s1.tobytes() + s2.tobytes()).hexdigest()[:16]]]
+    return {"violations": viol, "trace": trace,
+            "stats": {"ops": Mn, "draws": info["draws"], "forced": 0, "samples_checked": Mn, "faults": {}, "probes": {}, "stat_tests": len(up)},
+            "signature": hashlib.sha1(json.dumps([tags, len(up)]).encode()).hexdigest(), "nontrivial": True, "states": ["stat|big"]}
+
+
 def execute_stat(scn, ctx):
+    if scn.get("big"):
+        return execute_stat_big(scn, ctx)
     seam = ctx.seam
     seam.seed(scn["np_seed"])
     seam.begin_op([])
